@@ -118,9 +118,11 @@ func (r *Router) GetRule(db, table string) Rule {
 	}
 	rule := r.rules[db][table]
 	if rule == nil {
-		//set the database of default rule
-		r.defaultRule.(*BaseRule).db = db
-		return r.defaultRule
+		// the default rule is shared by every session of the namespace: hand out a
+		// per-call copy carrying the database instead of writing to the shared object
+		defaultRule := *r.defaultRule.(*BaseRule)
+		defaultRule.db = db
+		return &defaultRule
 	} else {
 		return rule
 	}
